@@ -286,6 +286,23 @@ def run_case(case):
                 pio.write_chunk(vol[:, c[4]:c[5], c[2]:c[3], c[0]:c[1]], s0["key"], c)
             if storage == "sharded":
                 acc.close()
+            damaged = None
+            if storage != "sharded" and case["vseed"] % 8 == 5 and len(info["scales"]) > 1:
+                # a source chunk is missing or cut short (an interrupted earlier step): this
+                # pair of scales cannot be processed
+                files = sorted(os.path.join(r, f) for r, _d, fs in
+                               os.walk(os.path.join(d, s0["key"])) for f in fs)
+                victim = files[case["vseed"] // 8 % len(files)]
+                if case["vseed"] // 64 % 2:
+                    os.unlink(victim)
+                    damaged = "removed"
+                else:
+                    with open(victim, "rb") as fh:
+                        content = fh.read()
+                    with open(victim, "wb") as fh:
+                        fh.write(content[:len(content) // 2])
+                    damaged = "cut to half its length"
+                obs["damaged_source_runs"] = obs.get("damaged_source_runs", 0) + 1
             tr = tracer.Trace()
             tracer.trace_io(pio, tr)
             ds = pipeline_downscaler()
@@ -309,6 +326,12 @@ def run_case(case):
                     acc.close()
                 except Exception as exc:  # noqa: BLE001
                     error = error or exc
+            if damaged and error is None:
+                v.append({"kind": "unreadable-source-chunk-did-not-stop-the-computation",
+                          "detail": f"{ctx}: one chunk file of scale {s0['key']} was "
+                          f"{damaged} before the pyramid was computed; the computation "
+                          "finished without an error"})
+                break
             if type(error).__name__ == "ContractBroken":
                 # a postcondition attached by the harness fired inside the pipeline: that
                 # is an observation of wrong behaviour, not a refusal by the tool
@@ -459,4 +482,5 @@ def gates(obs, tier):
         "default_chunk_size_with_three_scales": obs.get(
             "default_chunk_size_three_scales", 0) > 0,
         "downscale_contract_evaluated": ce.get("downscale", 0) > 1000,
+        "damaged_source_scales": obs.get("damaged_source_runs", 0) > 5,
     }
